@@ -89,7 +89,7 @@ def model_query(case, impl_res):
 
 def _tie_free(m):
     a = [DC.to_fraction(x) for x in m['model']['amplitude']]
-    return len(set(a)) == len(a)
+    return len(set(a)) == len(a) and m.get('determined', True)
 
 
 def judge(case, impl_res, ans):
